@@ -4,7 +4,7 @@ From Coq Require Export List String Ascii ZArith Bool Arith.
 From Coq Require Import DecimalString Decimal DecimalZ DecimalPos.
 Export ListNotations.
 
-Inductive errkind := OutOfFuel | EScan | EParse | EResolve | EType | EValue | EKey | EIndex | EAssert | EAttr.
+Inductive errkind := OutOfFuel | EScan | EParse | EResolve | EType | EValue | EKey | EIndex | EAssert | EAttr | EUnsupported.
 
 Inductive res (A : Type) := Ok (a : A) | Err (k : errkind).
 Arguments Ok {A} a.
@@ -36,7 +36,7 @@ Definition errshow (k : errkind) : string :=
   match k with
   | OutOfFuel => "OutOfFuel" | EScan => "Scan" | EParse => "Parse" | EResolve => "Resolve"
   | EType => "Type" | EValue => "Value" | EKey => "Key" | EIndex => "Index" | EAssert => "Assert"
-  | EAttr => "Attr" end.
+  | EAttr => "Attr" | EUnsupported => "Unsupported" end.
 
 Fixpoint concat_with (sep : string) (l : list string) : string :=
   match l with
